@@ -46,8 +46,9 @@ RULE = ('one case = (initial mode, register tuple, chain of 1-4 modes); all '
         'registers, chain).')
 ASSUMPTIONS = [
     'registers stay inside the documented ranges',
-    '"within one raw unit" is applied per component (hue circular) or, with '
-    'rgb involved or saturation/brightness 0, to the RGB distance (<= 2 units)',
+    '"within one raw unit" is applied per component (hue circular); with '
+    'rgb involved in the chain, alternatively to the RGB distance (<= 2 '
+    'units), a grey having no hue to keep',
 ]
 MODES = ['logical', 'raw', 'rgb']
 ALL9 = ['time', 'duration', 'hue', 'saturation', 'brightness', 'red', 'green',
@@ -120,12 +121,15 @@ def transmitted(run):
 def colours_agree(a, b, rgb_involved):
     if a[3] != b[3]:
         return False
+    # (between logical and raw units the hue is a plain re-scaling, whatever
+    # the saturation; only a colour that went through rgb has no hue to keep
+    # when it is a grey)
     comp = abs(a[1] - b[1]) <= 1 and abs(a[2] - b[2]) <= 1 and (
-        oracle.hue_dist(a[0], b[0]) <= 1 or min(a[1], b[1]) == 0
-        or min(a[2], b[2]) == 0)
+        oracle.hue_dist(a[0], b[0]) <= 1 or (rgb_involved and (
+            min(a[1], b[1]) == 0 or min(a[2], b[2]) == 0)))
     if comp:
         return True
-    if rgb_involved or min(a[1], b[1]) == 0 or min(a[2], b[2]) == 0:
+    if rgb_involved:
         return oracle.same_colour(a, b, 2)
     return False
 
@@ -150,10 +154,12 @@ def raw_of(mode, r):
 
 def same_raw(a, b, rgb_involved):
     comp = abs(a[1] - b[1]) <= 1 and abs(a[2] - b[2]) <= 1 and (
-        oracle.hue_dist(a[0], b[0]) <= 1 or min(a[1], b[1]) <= 1
-        or min(a[2], b[2]) <= 1)
+        oracle.hue_dist(a[0], b[0]) <= 1 or (rgb_involved and (
+            min(a[1], b[1]) <= 1 or min(a[2], b[2]) <= 1)))
     if comp:
         return True
+    if not rgb_involved:
+        return False
     ia = [int(round(x)) for x in a] + [0]
     ib = [int(round(x)) for x in b] + [0]
     return oracle.same_colour(ia, ib, 3)
